@@ -381,6 +381,9 @@ func checkC06(text, desc string, r *harness.Rec) {
 	r.Add("accepted_programs", 1)
 	if nonEmpty {
 		r.Add("distinct_nontrivial", 1)
+		if len(text) < 420 {
+			r.Sample(map[string]interface{}{"program": desc, "judgements_violating_independence": len(viols)})
+		}
 	}
 	if shiftBad != "" {
 		viol(r, "illegal shift in an accepted program", desc+": accepted with "+shiftBad, text, nil)
